@@ -147,7 +147,8 @@ Lemma hdist_raw_refl c : hdist_raw c c = 0.
 Proof.
   unfold hdist_raw.
   assert (E : hav_a (rad (lon c)) (rad (lat c)) (rad (lon c)) (rad (lat c)) = 0).
-  { rewrite hav_a_cos. rewrite !Rminus_diag_eq by reflexivity. rewrite cos_0. field. }
+  { rewrite hav_a_cos. replace (rad (lat c) - rad (lat c)) with 0 by ring.
+    replace (rad (lon c) - rad (lon c)) with 0 by ring. rewrite cos_0. field. }
   rewrite E, Rminus_0_r, sqrt_0, sqrt_1, atan2_pos by lra.
   replace (0 / 1) with 0 by field. rewrite atan_0. ring.
 Qed.
